@@ -12,7 +12,7 @@ RULE = ("Hypothesis generates StingyConfigurator specs over 3-7 boolean items (1
         "Any/Xor with the default possibly missing or not among the children, plog Any/Xor/All/AtMost/AtLeast/XNor, Imply with "
         "plain or defaulted consequence, one nesting level) x 1-2 priority dictionaries (0-4 entries, values in +-1..+-3 with "
         "ties and several levels, keys items / auxiliary ids / unknown ids). The objective vectors are captured from the solver "
-        "callable given to select(). For configurators with <=16 columns ALL 0/1 points are enumerated; for all pairs among <=60 "
+        "callable given to select(); every configurator gets a second select() with the same keys but other levels/signs.  For configurators with <=16 columns ALL 0/1 points are enumerated; for all pairs among <=60 "
         "feasible points, obj.x vs obj.y must order exactly like the lexicographic key (user levels by decreasing |prio| with "
         "sign, minus #selected non-default-branch nodes, minus #selected other non-prioritised columns), equal iff keys equal. "
         "The set of non-default-branch nodes is derived from the SPEC (complement group of a defaulted Any, directly or inside a "
@@ -57,6 +57,65 @@ def case_strategy(draw, tier):
     return {"model": spec, "prios": prios}
 
 
+def _check_request(c, prios, ids, nd_ids, cols, ev, round_no):
+    log = []
+    res = list(call(c.select, *prios, solver=solvers.exact(log, 70000), what="select"))
+    if len(log) != 1 or len(log[0]["objectives"]) != len(prios):
+        raise Violation(f"solver called {len(log)} times with {[len(x['objectives']) for x in log]} objectives for {len(prios)} priority dicts")
+    feas = log[0]["feasible"]
+    if feas is None:
+        ev.count("skipped_box_too_large")
+        return False, None
+    if any(tuple(oracle.bounds_tuple(v.bounds)) != (0, 1) for v in cols):
+        ev.count("skipped_non_boolean_column")
+        return False, None
+    sample = feas if len(feas) <= 60 else [feas[(i * len(feas)) // 60] for i in range(60)]
+    nontrivial = False
+    for pr, obj, (conf, ov, sc) in zip(prios, log[0]["objectives"], res):
+        obj = [int(o) for o in obj]
+        eff = {i: pr[i] for i in ids if i in pr and pr[i] != 0}
+        levels = sorted({abs(v) for v in eff.values()}, reverse=True)
+
+        def key(x):
+            k = []
+            for L in levels:
+                k.append(sum((1 if eff[i] > 0 else -1) * xv for i, xv in zip(ids, x) if i in eff and abs(eff[i]) == L))
+            k.append(-sum(xv for i, xv in zip(ids, x) if i not in eff and i in nd_ids))
+            k.append(-sum(xv for i, xv in zip(ids, x) if i not in eff and i not in nd_ids))
+            return tuple(k)
+        keys = [key(x) for x in sample]
+        vals = [solvers.objective_value(obj, x) for x in sample]
+        for (kx, vx, x), (ky, vy, y) in itertools.combinations(zip(keys, vals, sample), 2):
+            if (kx > ky) != (vx > vy) or (kx == ky) != (vx == vy):
+                raise Violation(f"request #{round_no + 1} on this configurator: objective {dict(zip(ids, obj))} for priorities {pr} ranks {dict(zip(ids, x))} (value {vx}, key {kx}) vs "
+                                f"{dict(zip(ids, y))} (value {vy}, key {ky}) against the lexicographic order "
+                                f"(non-default branches: {sorted(nd_ids)})")
+        ev.count("pairs", len(sample) * (len(sample) - 1) // 2)
+        # consequences on the optimum set
+        if feas:
+            allv = [solvers.objective_value(obj, x) for x in feas]
+            best = max(allv)
+            optima = [x for x, v in zip(feas, allv) if v == best]
+            if levels:
+                top = [i for i in eff if abs(eff[i]) == levels[0]]
+                if len(top) == 1:
+                    j = ids.index(top[0])
+                    want = 1 if eff[top[0]] > 0 else 0
+                    if any(x[j] == want for x in feas) and any(x[j] != want for x in optima):
+                        raise Violation(f"top priority {top[0]!r}={eff[top[0]]} is feasible to honour but an optimum of the objective does not")
+            if not eff and not nd_ids:
+                mn = min(sum(x) for x in feas)
+                if any(sum(x) != mn for x in optima):
+                    raise Violation("no priorities, no defaults: an optimum of the objective selects more than the minimum number of columns")
+            if conf:
+                got = tuple(int(conf[i]) for i in ids)
+                if got not in optima:
+                    raise Violation(f"select() reports {conf} which is not an optimum of the handed objective")
+        if nd_ids and eff and len(feas) >= 3:
+            nontrivial = True
+    return nontrivial, feas
+
+
 def check(case, ev):
     import numpy as np
     spec = case["model"]
@@ -83,62 +142,20 @@ def check(case, ev):
         want = -2 if i in nd_ids else -1
         if w != want:
             raise Violation(f"default prio of column {i!r} is {w}, expected {want} (non-default branches by spec: {sorted(nd_ids)})")
-    prios = [dict((k, v) for k, v in pr) for pr in case["prios"]]
-    log = []
-    res = list(call(c.select, *prios, solver=solvers.exact(log, 70000), what="select"))
-    if len(log) != 1 or len(log[0]["objectives"]) != len(prios):
-        raise Violation(f"solver called {len(log)} times with {[len(x['objectives']) for x in log]} objectives for {len(prios)} priority dicts")
-    feas = log[0]["feasible"]
-    if feas is None:
-        ev.count("skipped_box_too_large")
-        return
-    if any(tuple(oracle.bounds_tuple(v.bounds)) != (0, 1) for v in cols):
-        ev.count("skipped_non_boolean_column")
-        return
-    sample = feas if len(feas) <= 60 else [feas[(i * len(feas)) // 60] for i in range(60)]
+    prios1 = [dict((k, v) for k, v in pr) for pr in case["prios"]]
+    # a second request on the SAME configurator with the same keys but other levels/signs: the objective must follow the
+    # dictionary of that request, not an earlier one
+    remap = {1: -2, 2: 3, 3: 1, -1: 2, -2: -1, -3: -3}
+    prios2 = [{k: remap[v] for k, v in pr.items()} for pr in prios1]
     nontrivial = False
-    for pr, obj, (conf, ov, sc) in zip(prios, log[0]["objectives"], res):
-        obj = [int(o) for o in obj]
-        eff = {i: pr[i] for i in ids if i in pr and pr[i] != 0}
-        levels = sorted({abs(v) for v in eff.values()}, reverse=True)
-
-        def key(x):
-            k = []
-            for L in levels:
-                k.append(sum((1 if eff[i] > 0 else -1) * xv for i, xv in zip(ids, x) if i in eff and abs(eff[i]) == L))
-            k.append(-sum(xv for i, xv in zip(ids, x) if i not in eff and i in nd_ids))
-            k.append(-sum(xv for i, xv in zip(ids, x) if i not in eff and i not in nd_ids))
-            return tuple(k)
-        keys = [key(x) for x in sample]
-        vals = [solvers.objective_value(obj, x) for x in sample]
-        for (kx, vx, x), (ky, vy, y) in itertools.combinations(zip(keys, vals, sample), 2):
-            if (kx > ky) != (vx > vy) or (kx == ky) != (vx == vy):
-                raise Violation(f"objective {dict(zip(ids, obj))} for priorities {pr} ranks {dict(zip(ids, x))} (value {vx}, key {kx}) vs "
-                                f"{dict(zip(ids, y))} (value {vy}, key {ky}) against the lexicographic order "
-                                f"(non-default branches: {sorted(nd_ids)})")
-        ev.count("pairs", len(sample) * (len(sample) - 1) // 2)
-        # consequences on the optimum set
-        if feas:
-            allv = [solvers.objective_value(obj, x) for x in feas]
-            best = max(allv)
-            optima = [x for x, v in zip(feas, allv) if v == best]
-            if levels:
-                top = [i for i in eff if abs(eff[i]) == levels[0]]
-                if len(top) == 1:
-                    j = ids.index(top[0])
-                    want = 1 if eff[top[0]] > 0 else 0
-                    if any(x[j] == want for x in feas) and any(x[j] != want for x in optima):
-                        raise Violation(f"top priority {top[0]!r}={eff[top[0]]} is feasible to honour but an optimum of the objective does not")
-            if not eff and not nd_ids:
-                mn = min(sum(x) for x in feas)
-                if any(sum(x) != mn for x in optima):
-                    raise Violation("no priorities, no defaults: an optimum of the objective selects more than the minimum number of columns")
-            if conf:
-                got = tuple(int(conf[i]) for i in ids)
-                if got not in optima:
-                    raise Violation(f"select() reports {conf} which is not an optimum of the handed objective")
-        if nd_ids and eff and len(feas) >= 3:
-            nontrivial = True
+    feas = None
+    for round_no, prios in enumerate([prios1, prios2]):
+        if round_no == 1 and not any(prios1):
+            break
+        nt, feas = _check_request(c, prios, ids, nd_ids, cols, ev, round_no)
+        if feas is None:
+            return
+        nontrivial = nontrivial or nt
     cl = ["kind:" + k for k in sorted({n["k"] for n in oracle.spec_nodes(spec)} - {"leaf", "ref"})]
     cl.append("feasible>=3" if len(feas) >= 3 else "feasible<3")
     if nd_ids:
